@@ -11,10 +11,10 @@ def pub(*fields):
 
 # R7: byte-string literals are read through `blit("..")` (Verus knows the length of b".." but not its bytes)
 BLIT = {'rule': 'R7', 'count': '*', 'regex': r'b"([^"]*)"', 'replace': r'blit("\1")'}
-LITS = {'rule': 'R1', 'regex': r'\A\{', 'replace': '{\n    broadcast use {b_tok, b_ws_end, b_real_first};\n    proof { lemma_lits(); }'}
+LITS = {'rule': 'R1', 'regex': r'\A\{', 'replace': '{\n    broadcast use {b_tok, b_ws_end, b_real_first, b_stream_kind};\n    proof { lemma_lits(); }'}
 # ghost state at the top of a parser body: the literals, the environment (data, file offset, context), start position
 def top(extra=''):
-    return {'rule': 'R1', 'regex': r'\A\{', 'replace': '{\n    broadcast use {b_tok, b_ws_end, b_real_first};\n    proof { lemma_lits(); }\n    let ghost e0 = env_of(lexer, ctx); let ghost p0 = lexer.pos as int;' + extra}
+    return {'rule': 'R1', 'regex': r'\A\{', 'replace': '{\n    broadcast use {b_tok, b_ws_end, b_real_first, b_stream_kind};\n    proof { lemma_lits(); }\n    let ghost e0 = env_of(lexer, ctx); let ghost p0 = lexer.pos as int;' + extra}
 
 FRAME = 'final(lexer).wf() && final(lexer).same(old(lexer))'
 PROGRESS = 'res is Ok ==> final(lexer).pos > old(lexer).pos'
@@ -23,7 +23,7 @@ PROGRESS = 'res is Ok ==> final(lexer).pos > old(lexer).pos'
 X0 = 'obj_at(r, env_of(old(lexer), ctx), old(lexer).pos as int, max_depth as nat)'
 VALUE = 'parse_post(' + X0 + ', flags, res, final(lexer).pos as int)'
 CLS = 'obj_class(old(lexer).buf@, old(lexer).pos as int)'
-ARMS = [(1, 'value_dict_stream'), (2, 'value_int_ref'), (3, 'value_real'), (4, 'value_name'), (5, 'value_array'),
+ARMS = [(0, 'value_no_token'), (1, 'value_dict_stream'), (2, 'value_int_ref'), (3, 'value_real'), (4, 'value_name'), (5, 'value_array'),
         (6, 'value_lit_string'), (7, 'value_hex_string'), (8, 'value_bool_null')]
 
 IND = 'indirect_at(r, old(lexer).buf@, old(lexer).file_offset as int, opt_deref(decoder), old(lexer).pos as int)'
@@ -132,7 +132,7 @@ UNIT = {
      'attrs': ['#[verifier::loop_isolation(false)]', '#[verifier::allow_complex_invariants]'],
      'loops': {
         1: {'invariant': ['rest@.len() <= isize::MAX', 'lexer.wf()', 'lexer.same(old(lexer))', 'lexer.pos > old(lexer).pos',
-                          ('name_decoded_so_far', 'name_dec(rest0) == opt_prepend(s@, name_dec(rest@))')],
+                          ('name_decoded_so_far', 'name_dec(rest0) is Some ==> name_dec(rest0) == opt_prepend(s@, name_dec(rest@))')],
             'ensures': [('name_rest_plain', 'forall|i: int| 0 <= i < rest@.len() ==> rest@[i] != 35u8')],
             'decreases': 'rest@.len()'},
         2: {'invariant': ['lexer.wf()', 'lexer.same(old(lexer))', 'lexer.pos > old(lexer).pos', 'max_depth > 0', 'e0 == env_of(lexer, ctx)',
@@ -152,10 +152,10 @@ UNIT = {
             'decreases': 'hex_string_lexer.buf@.len() - hex_string_lexer.pos'},
      },
      'rewrites': [
-        top(' proof { lemma_flag_bits(flags.bits); }'), BLIT,
+        top(' proof { lemma_flag_bits(flags.bits); lemma_obj_unfold(r, e0, p0, max_depth as nat); }'), BLIT,
         {'rule': 'R1', 'find': 'let obj = if first_lexeme.equals(blit("<<")) {',
          'replace': 'let ghost w = first_lexeme.slice@; let ghost t1 = lexer.pos as int;'
-                    ' proof { lemma_obj_unfold(r, e0, p0, max_depth as nat); lemma_kw_first(); lemma_real_iso_is_lit(w); axiom_f32_accepts_iso_reals(w); lemma_starts_slash(w); }'
+                    ' proof { lemma_kw_first(); lemma_real_iso_is_lit(w); axiom_f32_accepts_iso_reals(w); lemma_starts_slash(w); }'
                     ' let obj = if first_lexeme.equals(blit("<<")) {'},
         {'rule': 'R7', 'find': 'ParseFlags::INTEGER | ParseFlags::REF', 'replace': 'flags_or(ParseFlags::INTEGER, ParseFlags::REF)'},
         {'rule': 'R3', 'find': 'PdfError::PrimitiveNotAllowed { allowed: ParseFlags::STREAM, found: flags }', 'replace': 'PdfError::PrimitiveNotAllowed'},
@@ -167,7 +167,7 @@ UNIT = {
         {'rule': 'R2', 'find': 'use crate::enc::decode_nibble;', 'replace': ''},
         {'rule': 'R2', 'find': 'use std::convert::TryInto;', 'replace': ''},
         {'rule': 'R10', 'find': 'let [hi, lo]: [u8; 2] = rest.get(idx+1 .. idx+3).ok_or(PdfError::EOF)?.try_into().unwrap();',
-         'replace': 'let hl_: [u8; 2] = hoist_get2(rest, idx+1, idx+3).ok_or(PdfError::EOF)?; let hi = hl_[0]; let lo = hl_[1];'},
+         'replace': 'proof { lemma_name_dec_escape(rest@, idx as int); } let hl_: [u8; 2] = hoist_get2(rest, idx+1, idx+3).ok_or(PdfError::EOF)?; let hi = hl_[0]; let lo = hl_[1];'},
         {'rule': 'R1', 'find': 's.extend_from_slice(&rest[..idx]);', 'replace': NAME_LOOP_STEP},
         {'rule': 'R1', 'find': 'rest = &rest[idx+3..];', 'replace': NAME_LOOP_END},
         {'rule': 'R1', 'find': 's.extend_from_slice(rest);',
@@ -178,7 +178,7 @@ UNIT = {
          'replace': 'let mut array = Vec::new(); let ghost mut vals: Seq<Val> = Seq::empty(); let ghost pa = lexer.pos as int;'
                     ' proof { lemma_arr_ends(vals, 0, arr_at(r, e0, pa, %s)); }' % D1},
         {'rule': 'R1', 'find': 'if lexer.peek()?.equals(blit("]")) { break; }',
-         'replace': 'proof { lemma_arr_unfold(r, e0, lexer.pos as int, %s); } if lexer.peek()?.equals(blit("]")) { proof { lemma_arr_ends(vals, tok(lexer.buf@, lexer.pos as int).unwrap().1, None); } break; }' % D1},
+         'replace': 'proof { lemma_arr_unfold(r, e0, lexer.pos as int, %s); } if lexer.peek()?.equals(blit("]")) { proof { let tk = tok(lexer.buf@, lexer.pos as int); if tk is Some { lemma_arr_ends(vals, tk.unwrap().1, None); } } break; }' % D1},
         {'rule': 'R1', 'find': 'let element = t!(parse_with_lexer_ctx(lexer, r, ctx, ParseFlags::ANY, max_depth-1));',
          'replace': 'let ghost pk = lexer.pos as int; let ghost xk = obj_at(r, e0, pk, %s);'
                     ' proof { if xk is Some { lemma_any_allows(xk.unwrap().0); } }'
